@@ -284,6 +284,9 @@ func c13BinaryStreams(quick bool) []c13Stream {
 		"bytes": {append(lockFrame(1, 0x20, 0, 0, 0, 30, 0, 5, 5), protocol.NewLockCommandDataSetString("abc").Data...)},
 		"array": {append(lockFrame(1, 0x20, 0, 0, 0, 30, 0, 5, 5), protocol.NewLockCommandDataPushString("x").Data...)},
 		"num":   {append(lockFrame(1, 0x20, 0, 0, 0, 30, 0, 5, 5), protocol.NewLockCommandDataIncrData(5).Data...)},
+		// held by ANOTHER LockId whose hold is in the log already (persistence delay 0)
+		"other-logged":       {func() []byte { b := lockFrame(1, 0, 0, 0, 0, 30, 0x0100, 5, 5); b[36] = 2; return b }()},
+		"other-logged-bytes": {func() []byte { b := lockFrame(1, 0x20, 0, 0, 0, 30, 0x0100, 5, 5); b[36] = 2; return b }(), protocol.NewLockCommandDataSetString("abc").Data},
 	}
 	body := func(n int, typ, fl byte) []byte {
 		b := make([]byte, n)
@@ -386,6 +389,10 @@ func c13BinaryStreams(quick bool) []c13Stream {
 				s3 := whole(fmt.Sprintf("bin/op/%s/on-%s/t%d/ack", name, state, t), lockFrame(t, 0x20, 0, 2, 0x1000, 30, 0, 5, 5), d)
 				s3.Setup = setup
 				add(s3)
+				// ... and with the require-ack flag on a request that holds nothing (expiry 0: granted and over at once)
+				s4 := whole(fmt.Sprintf("bin/op/%s/on-%s/t%d/ack-expiry0", name, state, t), lockFrame(t, 0x20, 0, 2, 0x1000, 0, 0, 5, 5), d)
+				s4.Setup = setup
+				add(s4)
 			}
 		}
 	}
